@@ -311,6 +311,11 @@ def durable_execution(
             invocation_input.initial_execution_state.next_marker,
         )
 
+        # With the complete history loaded the replay boundary may already be behind us: when no operation
+        # completed before this invocation (only the EXECUTION operation behind a marker, or only operations
+        # that are still outstanding) nothing is being replayed and logging starts right away.
+        execution_state.track_replay(operation_id="")
+
         if invocation_input.initial_execution_state.get_execution_operation() is None:
             # The first page can be empty (payload size limits): the EXECUTION operation, which carries
             # the input, then arrives with the paginated history. Without this the handler would be
